@@ -41,7 +41,7 @@ def runLoopG (cx : Ctx) : (fuel : Nat) → (depth : Nat) → (ro : Bool) → Fra
   | 0, _, _, fr, g, prev => if frameOk prev fr then some ⟨#[], some .outOfFuel, fr.gas, g⟩ else none
   | fuel + 1, depth, ro, fr, g, prev =>
     if ¬ frameOk prev fr then none else
-    match stepPre cx ro fr g with
+    match stepPre cx ro fr (g.observe depth fr.stack.length) with
     | .fault e g' => some ⟨#[], some e, fr.gas, g'⟩
     | .ok info fr1 args g1 cgt =>
       match execOp cx ro info.exec fr1 args g1 cgt with
@@ -93,7 +93,7 @@ theorem trace_invariants (cx : Ctx) (ht : TableOk cx.table) :
     obtain ⟨_, hlt, hst, hmi⟩ := hok
     unfold runLoopG runLoop
     rw [if_neg (by simp only [Decidable.not_not]; exact ⟨by assumption, hlt, hst, hmi⟩)]
-    cases hpre : stepPre cx ro fr g with
+    cases hpre : stepPre cx ro fr (g.observe depth fr.stack.length) with
     | fault e g' => rfl
     | ok info fr1 args g1 cgt =>
       simp only
@@ -101,8 +101,8 @@ theorem trace_invariants (cx : Ctx) (ht : TableOk cx.table) :
       have ha := ht _ _ hp.entry
       obtain ⟨memorySize, cost, m', hdyn, hgas, _, _⟩ := hp.dyn
       have hf1 : fr1.gas ≤ fr.gas := by omega
-      have hsb := stack_bounded_step cx ht ro fr g info fr1 args g1 cgt hpre
-      have hmp := memory_paid_step cx ht ro fr g info fr1 args g1 cgt hmi hpre
+      have hsb := stack_bounded_step cx ht ro fr _ info fr1 args g1 cgt hpre
+      have hmp := memory_paid_step cx ht ro fr _ info fr1 args g1 cgt hmi hpre
       have hargs : args.length = info.exec.pops := by
         rw [hp.argsEq]
         have hso : info.minStack = info.exec.pops := by
@@ -123,7 +123,7 @@ theorem trace_invariants (cx : Ctx) (ht : TableOk cx.table) :
         · rw [hm3]; exact memory_inv_execute cx ro info.exec fr1 args g1 cgt u hargs hmp.1 hex
       | invoke req deduct g2 =>
         have hi := execOp_invoke _ _ _ _ _ _ _ _ _ _ hex
-        obtain ⟨hd, hchild, hback, hpush, hpops⟩ := invoke_gas cx fr g info fr1 args g1 cgt req deduct hp ha hlt hi
+        obtain ⟨hd, hchild, hback, hpush, hpops⟩ := invoke_gas cx fr _ info fr1 args g1 cgt req deduct hp ha hlt hi
         have hrunA : GoodRun (fun _ => True) (runLoop cx fuel) (reqGas req) := by
           intro d ro' fr' g' hg' _
           exact ⟨(run_main cx ht fuel d ro' fr' g' (by omega)).1, trivial⟩
